@@ -134,9 +134,12 @@ def check_history(which, acc):
             lib = bp.parse_string(doc, **pkw)
             bp.write_string(lib, **wkw)
         except Exception as e:
-            # the workflow itself may legitimately fail on a document (e.g. invalid names are error blocks, ints need
-            # enclosing); what matters here is what plain calls do AFTERWARDS
-            acc.raised["workflow:" + type(e).__name__] += 1
+            # parse_string / write_string with shipped middleware on any text: syntax and name errors are failed blocks
+            acc.violation(
+                {"oracle": "no_exception", "exception": type(e).__name__, "entrypoint": "workflow:" + name, "where": "?"},
+                {"case": {"after_workflow": name, "text": doc}, "observed": f"{type(e).__name__}: {str(e)[:200]}", "expected": "Library / str, no exception"},
+                size=len(doc),
+            )
     texts = list(HISTORY_DOCS) + list(spaces.BASE_DOCS)
     for d in range(len(spaces.BASE_DOCS)):
         for edits, toks in spaces.deviation_iter(("dev", d, 1, 0, 1), spaces.SIGMA_DOC):
